@@ -41,6 +41,20 @@ def name_set(draw, n, chars=None, dirs=None, min_len=1):
     for i in range(n):
         nm = draw(st.lists(st.sampled_from(chars), min_size=min_len, max_size=7))
         d = draw(dir_st)
+        if out and draw(st.integers(0, 5)) == 0:
+            # a near-twin of an earlier name in the same directory: one character replaced by the character that differs
+            # from it only in bit 5 (0x20).  For letters that is the other case (same DFS name -- rejected below); for
+            # '[' / '{', '\\' / '|', ']' / '}', '^' / '~', '@' / '`', '_' / DEL it is a different, legal name that a
+            # sloppy case fold confuses with the first.  A proper prefix of an earlier name is the other kind of twin.
+            d0, nm0 = out[draw(st.integers(0, len(out) - 1))]
+            tw = list(nm0)
+            cand = [k for k, ch in enumerate(tw) if (ch ^ 0x20) in chars and not chr(ch).isalpha()]
+            if cand:
+                k = cand[draw(st.integers(0, len(cand) - 1))]
+                tw[k] ^= 0x20
+                nm, d = tw, d0
+            elif len(tw) > 1:
+                nm, d = tw[:-1], d0
         key = (chr(d).lower(), bytes(nm).lower())
         if key in seen:
             # make unique by construction: replace with an index-derived name
